@@ -48,8 +48,10 @@ fn parse_list_declaration(input: &str) -> Result<ListDeclaration, CompilerError>
     let name = input[..eq_pos].trim().to_owned();
     let rhs = input[eq_pos + 1..].trim();
 
+    // The values of list items are 32-bit integers, in the story as in the runtime.
+    // The next implicit value is kept wider: it is only out of range if an item uses it.
     let mut items = Vec::new();
-    let mut value: u32 = 1;
+    let mut next_value: i64 = 1;
     for raw in rhs.split(',') {
         let item = raw.trim();
         if item.is_empty() {
@@ -63,20 +65,27 @@ fn parse_list_declaration(input: &str) -> Result<ListDeclaration, CompilerError>
                 (item, false)
             };
         // Check for explicit value assignment: `name = number`
-        if let Some((item_name, item_value)) = inner.split_once('=') {
-            let item_name = item_name.trim().to_owned();
-            let explicit_value: u32 = item_value.trim().parse().map_err(|_| {
-                CompilerError::invalid_source(format!(
-                    "invalid LIST item value: '{}'",
-                    item_value.trim()
-                ))
-            })?;
-            value = explicit_value;
-            items.push((item_name, value, selected));
+        let item_name = if let Some((item_name, item_value)) = inner.split_once('=') {
+            let item_value = item_value.trim();
+            let digits = item_value.strip_prefix(['-', '+']).unwrap_or(item_value);
+            if digits.is_empty() || !digits.bytes().all(|b| b.is_ascii_digit()) {
+                return Err(CompilerError::invalid_source(format!(
+                    "invalid LIST item value: '{item_value}'"
+                )));
+            }
+            // (more digits than an i64 holds are out of range all the more)
+            next_value = item_value.parse().unwrap_or(i64::MAX);
+            item_name.trim()
         } else {
-            items.push((inner.to_owned(), value, selected));
-        }
-        value += 1;
+            inner
+        };
+        let value = i32::try_from(next_value).map_err(|_| {
+            CompilerError::invalid_source(format!(
+                "LIST item value out of range: the value of '{item_name}' does not fit a 32-bit integer"
+            ))
+        })?;
+        items.push((item_name.to_owned(), value, selected));
+        next_value = i64::from(value) + 1;
     }
 
     Ok(ListDeclaration { name, items })
